@@ -40,7 +40,7 @@ fn special_grammars() -> Vec<(String, String, Vec<String>)> {
     // scanner states, comments
     let mk = |body: &str, header: &str, alpha: &[&str]| {
         (
-            format!("{header} {body}").trim().to_string(),
+            format!("{header} {body}").replace('\n', " ").trim().to_string(),
             format!("%start S\n{header}\n%%\n{body}\n"),
             alpha.iter().map(|s| s.to_string()).collect::<Vec<_>>(),
         )
@@ -57,6 +57,11 @@ fn special_grammars() -> Vec<(String, String, Vec<String>)> {
         mk("S: { A }; A: 'a' B; B: 'b' | ;", "%grammar_type 'LALR(1)'", &["a", "b", "x", "é"]),
         mk("S: S 'a' | 'b';", "%grammar_type 'LALR(1)'", &["a", "b", "x"]),
         mk("S: /a*/ S | 'b';", "%grammar_type 'LALR(1)'", &["a", "b", "x"]),
+        // tokens skipped by a scanner state's %skip list (only on the tree stack when the tree is not trimmed)
+        mk("S: A B; A: 'a'; B: 'b'; H: '#';", "%skip H", &["a", "b", "#", "x"]),
+        mk("S: A B; A: 'a'; B: 'b'; H: '#';", "%grammar_type 'LALR(1)'\n%skip H", &["a", "b", "#", "x"]),
+        mk("S: 'a' { 'b' }; CStart: '<'; CEnd: <Cmt>'>'; CText: <Cmt>/[^>]+/;", "%skip CStart\n%on CStart %push Cmt\n%scanner Cmt {\n  %auto_newline_off\n  %auto_ws_off\n  %skip CText, CEnd\n  %on CEnd %pop\n}", &["a", "b", "<", ">", "x"]),
+        mk("S: 'a' { 'b' }; CStart: '<'; CEnd: <Cmt>'>'; CText: <Cmt>/[^>]+/;", "%grammar_type 'LALR(1)'\n%skip CStart\n%on CStart %push Cmt\n%scanner Cmt {\n  %auto_newline_off\n  %auto_ws_off\n  %skip CText, CEnd\n  %on CEnd %pop\n}", &["a", "b", "<", ">", "x"]),
     ]
 }
 
@@ -254,9 +259,26 @@ fn eval_c20(case: &Case, acc: &Acc) -> Vec<Violation> {
     };
     let mut nontrivial = false;
     for text in &inputs {
-        let Ok(b) = catch(|| base.parse(text, &RunOpts::default())) else {
-            acc.outcome("baseline_panics(C19)");
-            continue;
+        let b = match catch(|| base.parse(text, &RunOpts::default())) {
+            Ok(b) => b,
+            Err(bp) => {
+                // a crash of the default configuration is C19's business -- unless an option makes it go away:
+                // then the option changes the outcome
+                acc.outcome("baseline_panics(C19)");
+                acc.eval(1);
+                if let Ok(o) = catch(|| base.parse(text, &RunOpts { trim: true, ..Default::default() })) {
+                    if !o.budget_exceeded {
+                        out.push(vio(
+                            "option_changes_verdict",
+                            format!("{} | input {:?}: the parser with default options panics ({}), with trim_parse_tree it returns ok={}", case.short, text, panic_site(&bp), o.ok),
+                            case,
+                            Some(text),
+                            json!({"variant": "trim", "baseline": "panic"}),
+                        ));
+                    }
+                }
+                continue;
+            }
         };
         if b.budget_exceeded {
             acc.outcome("baseline_does_not_terminate(C19)");
